@@ -17,5 +17,21 @@ def read1 (toks : List String) : Option JVal := do
   let (a, r1) ← Wire.readVal toks
   if r1.isEmpty then pure a else none
 
+mutual
+  /-- canonical form of a value as `jsoncons::json` stores it: members sorted by key, first duplicate wins -/
+  def sortKeys : JVal → JVal
+    | .arr xs => .arr (sortList xs)
+    | .obj ms => .obj (sortMembers ms)
+    | v => v
+  def sortList : List JVal → List JVal
+    | [] => []
+    | x :: xs => sortKeys x :: sortList xs
+  def sortMembers : List (Bytes × JVal) → List (Bytes × JVal)
+    | [] => []
+    | (k, x) :: ms =>
+      let rest := sortMembers ms
+      Assoc.insertSorted k (sortKeys x) (Assoc.erase k rest)
+end
+
 end Drv
 end JV
